@@ -14,9 +14,11 @@ package main
 
 import (
 	"context"
+	"crypto/tls"
 	"errors"
 	"flag"
 	"fmt"
+	"io"
 	"log/slog"
 	"net"
 	"net/netip"
@@ -25,7 +27,10 @@ import (
 	"strings"
 	"time"
 
+	"github.com/HdrHistogram/hdrhistogram-go"
+
 	"example.com/scion-time/core/client"
+	"example.com/scion-time/core/measurements"
 	"example.com/scion-time/core/timebase"
 	"example.com/scion-time/net/ntp"
 	"example.com/scion-time/net/udp"
@@ -39,10 +44,10 @@ import (
 
 const (
 	numWorkers   = 16
-	dropWait     = 60 * time.Millisecond
-	dropMargin   = 30 * time.Millisecond
-	longWait     = 5 * time.Second
-	eraBoundary  = int64(2085978496) // 2036-02-07T06:28:16Z, start of NTP era 1
+	dropWait     = 150 * time.Millisecond // length of a real loss (1 in 5 silent attempts); no decision hangs on it
+	longWait     = 15 * time.Second
+	maxTries     = 3                      // a history the harness could not record is run again
+	eraBoundary  = int64(2085978496)      // 2036-02-07T06:28:16Z, start of NTP era 1
 	maxThetaSecs = int64(60 * 365 * 86400)
 )
 
@@ -67,9 +72,13 @@ type callScript struct {
 type histScript struct {
 	seed  uint64
 	scion bool
-	tsopt int // SCION: replies carry a receive-timestamp option (1 software form, 2 hardware form)
+	tsopt int  // SCION: replies carry a receive-timestamp option (1 software form, 2 hardware form)
+	hbh   bool // SCION: replies carry a hop-by-hop option of the same type with a wrong time
+	v6    bool // IP over the IPv6 loopback address
+	nts   bool // IP with NTS: the server is the one the key exchange names
 	im    bool
 	calls []callScript
+	multi map[int]action // c03.multi: the action per server instead of per attempt
 }
 
 var worker = flag.Int("worker", -1, "internal: run as worker i")
@@ -146,11 +155,21 @@ func runParent(a lib.Args) {
 }
 
 var (
-	thePeer   *peer
-	localAddr *net.UDPAddr
-	log0      = slog.New(recHandler{logger: 0})
-	log1      = slog.New(recHandler{logger: 1})
+	thePeer    *peer
+	localAddr  *net.UDPAddr
+	localAddr6 = &net.UDPAddr{IP: net.IPv6loopback}
+	log0       = slog.New(recHandler{logger: 0})
+	log1       = slog.New(recHandler{logger: 1})
+	quiet      = slog.New(slog.NewTextHandler(io.Discard, nil))
 )
+
+// what the worker reports about itself at the end (case kind c03.kstamps)
+var stat struct {
+	attempts, fbTx, fbRx   int64 // ordinary attempts; those whose transmit / receive stamp was a clock reading
+	histories, dropped     int64 // histories scripted; histories that could not be recorded in maxTries runs
+	retried                int64
+	portPairs, samePorts   int64 // consecutive requests of one call; those sent from the same source port
+}
 
 func runWorker(a lib.Args, wi int) {
 	pid := os.Getpid()
@@ -161,6 +180,7 @@ func runWorker(a lib.Args, wi int) {
 	thePeer = newPeer(addr, foreign)
 	w := lib.NewWriter(a.Out)
 	defer w.Close()
+	calibrate()
 
 	var seeds []uint64
 	if a.Replay != "" {
@@ -178,38 +198,80 @@ func runWorker(a lib.Args, wi int) {
 			seeds = append(seeds, r.U64()>>1)
 		}
 	}
-	budget := 100 * time.Second
+	// generous: the quick tier takes about 20 s on an idle machine
+	budget := 8 * time.Minute
 	if a.Tier == "thorough" {
-		budget = 12 * time.Minute
+		budget = 35 * time.Minute
 	}
 	start := time.Now()
-	skipped, done := 0, 0
-	for _, s := range seeds {
+	for n, s := range seeds {
 		if time.Since(start) > budget {
-			fmt.Printf("NOTE worker %d stopped after %d of %d histories (time budget)\n", wi, done, len(seeds))
+			fmt.Printf("NOTE worker %d stopped after %d of %d histories (time budget)\n", wi, n, len(seeds))
 			break
 		}
-		hs := genHistory(s)
-		if !runHistory(w, hs) {
-			skipped++
+		stat.histories++
+		okRun := false
+		for try := 0; try < maxTries && !okRun; try++ {
+			if try > 0 {
+				stat.retried++
+			}
+			okRun = runHistory(w, genHistory(s))
 		}
-		done++
-	}
-	if a.Replay == "" && wi < 4 {
-		r := lib.NewRng(a.Seed*31 + uint64(wi))
-		for k := 0; k < 2; k++ {
-			runFallback(w, k == 1, genThetaBase(r))
+		if !okRun {
+			stat.dropped++
 		}
-	}
-	if a.Replay == "" && (wi == 4 || wi == 5) {
-		runMulti(w, time.Duration(2+wi)*time.Second+time.Duration(wi)*1234567)
 	}
 	if a.Replay == "" {
-		w.Case("c03.kstamps", "", lib.V(lib.I(nAttempts), lib.I(nFbTx), lib.I(nFbRx)), "")
+		r := lib.NewRng(a.Seed*31 + uint64(wi))
+		if wi < 4 {
+			for k := 0; k < 2; k++ {
+				theta := genThetaBase(r)
+				for try := 0; try < maxTries && !runFallback(w, k == 1, theta); try++ {
+				}
+			}
+		}
+		if wi == 4 || wi == 5 {
+			for try := 0; try < maxTries && !runMulti(w, wi); try++ {
+			}
+		}
+		for k := 0; k < 6; k++ {
+			theta := genThetaBase(r)
+			for try := 0; try < maxTries && !runNoFilter(w, k%2 == 1, k, theta); try++ {
+			}
+		}
+		w.Case("c03.kstamps", "", lib.V(lib.I(stat.attempts), lib.I(stat.fbTx), lib.I(stat.fbRx),
+			lib.I(stat.histories), lib.I(stat.dropped), lib.I(stat.portPairs), lib.I(stat.samePorts)), "")
 	}
-	if skipped > 0 {
-		fmt.Printf("NOTE worker %d: %d histories not recorded (peer and client disagree on the number of requests, or a scripted datagram was sent too close to a deadline)\n", wi, skipped)
+	if stat.dropped > 0 || stat.retried > 0 {
+		fmt.Printf("NOTE worker %d: %d histories run again, %d of %d not recorded after %d runs (peer and client disagree on the number of requests, or an unscripted timeout)\n",
+			wi, stat.retried, stat.dropped, stat.histories, maxTries)
 	}
+}
+
+// the error values of core/client, learnt from exchanges whose outcome is scripted
+func calibrate() {
+	one := func(kind actKind, junk int, class int64) {
+		for try := 0; try < maxTries; try++ {
+			act := action{kind: kind, junk: junk}
+			hs := &histScript{calls: []callScript{{acts: []action{act}}}}
+			c := &client.IPClient{Log: quiet, Filter: recFilter{}}
+			rec.snap = func() prevSnap { return prevSnap{} }
+			thePeer.begin(hs)
+			thePeer.setCall(0)
+			ctx, cancel := context.WithTimeout(context.Background(), longWait)
+			_, _, err := client.MeasureClockOffsetIP(ctx, quiet, c, &net.UDPAddr{IP: localAddr.IP}, thePeer.addr(0))
+			cancel()
+			rec.take()
+			thePeer.waitDone(1, longWait)
+			if err != nil && errClass(err) != 1 {
+				learn(err, class)
+				return
+			}
+		}
+	}
+	one(aTwoStale, 0, 2)
+	one(aTwoJunk, junkForeign, 4)
+	one(aTwoJunk, junkOversize, 4)
 }
 
 // ---- generation ----
@@ -257,6 +319,14 @@ func genHistory(seed uint64) *histScript {
 	hs := &histScript{seed: seed, im: r.Intn(8) != 0, scion: r.Intn(100) < 35}
 	if hs.scion {
 		hs.tsopt = r.Intn(3)
+		hs.hbh = r.Intn(4) == 0
+	} else {
+		switch x := r.Intn(100); {
+		case x < 15:
+			hs.v6 = true
+		case x < 32:
+			hs.nts = true
+		}
 	}
 	base := genThetaBase(r)
 	mode := r.Intn(4) // 0 constant, 1 jitter, 2 steps between exchanges, 3 unrelated per exchange
@@ -318,6 +388,19 @@ func genHistory(seed uint64) *histScript {
 			if r.Intn(100) < p {
 				act.kind = actKind(1 + r.Intn(int(numActKinds)-1))
 			}
+			act.junk = r.Intn(3)
+			if hs.scion && act.kind == aTwoJunk {
+				act.junk = junkShort // a SCION datagram from another AS is an "unexpected packet", not junk, when it ends the attempt
+			}
+			act.unblock = r.Intn(5) != 0
+			if hs.nts {
+				// replies of other exchanges fail the NTS checks before the NTP fields are looked at: C05/C10
+				switch act.kind {
+				case aStaleFirst, aTwoStale, aStaleOnly, aForeignFirst:
+					act.kind = aNormal
+				}
+				act.unblock = true
+			}
 			for j := 0; j < 2; j++ {
 				act.theta[j] = nextTheta()
 				act.fwd[j] = genDelay(r)
@@ -344,23 +427,31 @@ func genHistory(seed uint64) *histScript {
 
 // ---- running one history ----
 type attObs struct {
-	now0     event
-	fbTx     bool
-	fbRx     bool
-	recvAt   time.Time
-	hasRecv  bool
-	eval     *event
-	filt     *event
-	fail     *event
-	end      time.Time
-	deadline time.Time
+	now0    event
+	fbTx    bool
+	fbRx    bool
+	recvAt  time.Time
+	hasRecv bool
+	eval    *event
+	filt    *event
+	fail    *event
+	end     time.Time
 }
 
+// Cuts the event list of one call into exchange attempts.  An attempt starts with
+// the client's clock reading cTxTime0 and ends with the call of the measurement
+// filter (accepted) or with a record of level Info on the logger handed to
+// MeasureClockOffset* (failed).  The client's own log records are used where they
+// exist (clock fallback, receive time, offset and delay as computed); nothing
+// breaks when their wording changes.
 func parseEvents(evs []event) ([]attObs, bool) {
 	var out []attObs
 	var cur *attObs
+	prevNow := false
 	for i := range evs {
 		e := evs[i]
+		wasNow := prevNow
+		prevNow = e.kind == evNow
 		if cur == nil {
 			if e.kind == evNow {
 				cur = &attObs{now0: e}
@@ -370,10 +461,16 @@ func parseEvents(evs []event) ([]attObs, bool) {
 			continue
 		}
 		switch {
-		case e.kind == evLog && e.logger == 1 && e.level >= slog.LevelError && strings.Contains(e.msg, "tx timestamp"):
-			cur.fbTx = true
-		case e.kind == evLog && e.logger == 1 && e.level >= slog.LevelError && strings.Contains(e.msg, "rx timestamp"):
-			cur.fbRx = true
+		case e.kind == evLog && e.logger == 1 && e.level >= slog.LevelError && wasNow:
+			// a clock reading followed by an error record: a kernel timestamp was not available
+			switch {
+			case strings.Contains(e.msg, "rx"):
+				cur.fbRx = true
+			case strings.Contains(e.msg, "tx"):
+				cur.fbTx = true
+			default:
+				cur.fbTx, cur.fbRx = true, true
+			}
 		case e.kind == evLog && e.logger == 1 && e.level == slog.LevelDebug && e.hasOff:
 			ee := e
 			cur.eval = &ee
@@ -403,8 +500,10 @@ func refNum(s string) int64 {
 		return 0
 	}
 	for i := 0; i < 2; i++ {
-		if s == thePeer.addr(i).String() || s == theIA.String()+","+thePeer.addr(i).String() {
-			return int64(i + 1)
+		for _, a := range []*net.UDPAddr{thePeer.addr(i), thePeer.addr6(i)} {
+			if s == a.String() || s == theIA.String()+","+a.String() {
+				return int64(i + 1)
+			}
 		}
 	}
 	return 7
@@ -414,11 +513,22 @@ func prevStr(p prevSnap) string {
 	return lib.L(lib.I(refNum(p.ref)), lib.Bool(p.interleaved), t64s(p.cTx), t64s(p.cRx), t64s(p.sRx))
 }
 
+// a time whose Time64 value is x (the model needs some such time, not the exact one)
+func timeOf64(x ntp.Time64, ref time.Time) time.Time {
+	cand := ntp.TimeFromTime64(x, ref)
+	if ntp.Time64FromTime(cand) != x {
+		cand = cand.Add(1)
+	}
+	return cand
+}
+
 // the client under test: the real IPClient or the real SCIONClient
 type cli struct {
 	ip   *client.IPClient
 	sc   *client.SCIONClient
 	zone string // interface name: requests hardware timestamping
+	v6   bool
+	nts  bool
 }
 
 func (c *cli) obj() any {
@@ -441,29 +551,51 @@ func scionRemote(srv int) udp.UDPAddr { return udp.UDPAddr{IA: theIA, Host: theP
 
 func (c *cli) measure(ctx context.Context, srv int) (time.Time, time.Duration, error) {
 	if c.sc == nil {
-		return client.MeasureClockOffsetIP(ctx, log0, c.ip, &net.UDPAddr{IP: localAddr.IP, Zone: c.zone}, thePeer.addr(srv))
+		la, ra := &net.UDPAddr{IP: localAddr.IP, Zone: c.zone}, thePeer.addr(srv)
+		if c.v6 {
+			la, ra = &net.UDPAddr{IP: localAddr6.IP}, thePeer.addr6(srv)
+		}
+		if c.nts {
+			ra = thePeer.addr(0) // the configured address; the key exchange decides
+		}
+		return client.MeasureClockOffsetIP(ctx, log0, c.ip, la, ra)
 	}
 	la := udp.UDPAddr{IA: theIA, Host: &net.UDPAddr{IP: append(net.IP(nil), localAddr.IP...), Zone: c.zone}}
 	p := spath.Path{Src: theIA, Dst: theIA, DataplanePath: spath.Empty{}, NextHop: thePeer.addr(srv)}
-	ts, off, _ := client.MeasureClockOffsetSCION(ctx, log0, []*client.SCIONClient{c.sc}, la, scionRemote(srv), []snet.Path{p})
-	if ts.IsZero() {
-		return ts, off, errNoMeasurement
+	ts, off, err := client.MeasureClockOffsetSCION(ctx, log0, []*client.SCIONClient{c.sc}, la, scionRemote(srv), []snet.Path{p})
+	if err == nil && ts.IsZero() {
+		err = errNoMeasurement
 	}
-	return ts, off, nil
+	return ts, off, err
 }
 
 var errNoMeasurement = errors.New("no measurement")
 
-// how often the client fell back from a kernel timestamp to a clock reading
-var nAttempts, nFbTx, nFbRx int64
+func newClient(hs *histScript, filter bool) *cli {
+	c := &cli{v6: hs.v6, nts: hs.nts}
+	var f measurements.Filter
+	if filter {
+		f = recFilter{}
+	}
+	if hs.scion {
+		c.sc = &client.SCIONClient{Log: log1, InterleavedMode: hs.im, Filter: f}
+	} else {
+		c.ip = &client.IPClient{Log: log1, InterleavedMode: hs.im, Filter: f}
+		if hs.nts {
+			c.ip.Auth.Enabled = true
+			ke := &c.ip.Auth.NTSKEFetcher
+			ke.Log = quiet
+			ke.TLSConfig.InsecureSkipVerify = true
+			ke.TLSConfig.ServerName = thePeer.ke.addr.String()
+			ke.TLSConfig.MinVersion = tls.VersionTLS13
+			ke.Port = fmt.Sprint(thePeer.ke.port)
+		}
+	}
+	return c
+}
 
 func runHistory(w *lib.Writer, hs *histScript) bool {
-	c := &cli{}
-	if hs.scion {
-		c.sc = &client.SCIONClient{Log: log1, InterleavedMode: hs.im, Filter: recFilter{}}
-	} else {
-		c.ip = &client.IPClient{Log: log1, InterleavedMode: hs.im, Filter: recFilter{}}
-	}
+	c := newClient(hs, true)
 	snapPrev := func() prevSnap { return snapPrevOf(c.obj()) }
 	rec.snap = snapPrev
 	thePeer.begin(hs)
@@ -473,9 +605,8 @@ func runHistory(w *lib.Writer, hs *histScript) bool {
 	var callsIn, callsOut []string
 	totalAttempts := 0
 	var allAtt []attObs
-	oracleOn := true
-	lossSeen, ntHist, racy := false, false, false
-	ok := true
+	lossSeen, ntHist := false, false
+	var hAttempts, hFbTx, hFbRx, hPairs, hSame int64
 
 	for i, cs := range hs.calls {
 		before := snapPrev()
@@ -513,17 +644,19 @@ func runHistory(w *lib.Writer, hs *histScript) bool {
 			}
 		}
 		thePeer.setCall(i)
+		if hs.nts {
+			thePeer.ke.setAnnounce(cs.srv)
+		}
 		waits := false
 		for k, act := range cs.acts {
-			if (hs.im || k == 0) && act.kind.waits() {
+			if (hs.im || k == 0) && act.waits() {
 				waits = true
 			}
 		}
 		var ctx context.Context
 		var cancel context.CancelFunc = func() {}
-		var sctx *scriptCtx
 		if waits || hs.scion {
-			sctx = &scriptCtx{}
+			sctx := &scriptCtx{}
 			sctx.wait = func() time.Duration {
 				// the peer must have dealt with every request sent so far (it may lag behind a
 				// client that has already given up on a short deadline) before the class of the
@@ -536,15 +669,11 @@ func runHistory(w *lib.Writer, hs *histScript) bool {
 					}
 				}
 				rec.mu.Unlock()
-				thePeer.waitDone(totalAttempts+ends, 5*time.Second)
-				d := longWait
+				thePeer.waitDone(totalAttempts+ends, longWait)
 				if thePeer.nextWaits() {
-					d = dropWait
+					return dropWait
 				}
-				thePeer.mu.Lock()
-				thePeer.h.deadlineOf[len(thePeer.h.attempts)] = time.Now().Add(d)
-				thePeer.mu.Unlock()
-				return d
+				return longWait
 			}
 			ctx = sctx
 		} else {
@@ -559,68 +688,96 @@ func runHistory(w *lib.Writer, hs *histScript) bool {
 		after := snapPrev()
 		atts, complete := parseEvents(evs)
 		if !complete {
-			ok = false
-			break
+			return false
 		}
 		totalAttempts += len(atts)
-		if !thePeer.waitDone(totalAttempts, 5*time.Second) {
-			ok = false
-			break
+		if !thePeer.waitDone(totalAttempts, longWait) {
+			return false
 		}
 		base := totalAttempts - len(atts)
+		lastOK := -1
+		for k := range atts {
+			if atts[k].filt != nil {
+				lastOK = k
+			}
+		}
 		thePeer.mu.Lock()
 		h := thePeer.h
 		var attIn, attOut []string
 		for k := range atts {
 			at := &atts[k]
 			al := h.attempts[base+k]
+			act := action{kind: al.act}
+			if k < len(cs.acts) {
+				act = cs.acts[k]
+			}
 			tags[actNames[al.act]] = true
 			if al.act != aNormal && al.act != aForceBasic {
 				lossSeen = true
 			}
-			nAttempts++
+			if act.kind.silent() && act.unblock {
+				tags["unblocked"] = true
+			}
+			hAttempts++
 			if at.fbTx {
-				nFbTx++
+				hFbTx++
 			}
 			if at.fbRx {
-				nFbRx++
+				hFbRx++
 			}
 			if at.fbTx || at.fbRx {
-				oracleOn = false
 				tags["fallback"] = true
 			}
-			// a scripted datagram of a waiting attempt sent too close to that attempt's deadline
-			// makes the run inconclusive
-			if dl, has := h.deadlineOf[base+k]; has && al.act.waits() {
-				for _, d := range al.dgrams {
-					if d.sendReal.After(dl.Add(-dropMargin)) {
-						racy = true
-					}
+			if k > 0 {
+				hPairs++
+				if al.port == h.attempts[base+k-1].port {
+					hSame++
 				}
 			}
-			// inputs
-			ctx1 := at.now0.real
-			if at.filt != nil && at.eval != nil {
-				if !at.eval.inter {
-					ctx1 = at.filt.t0
+			// a timeout although something decisive had been sent: the machine, not the client
+			if at.fail != nil && errClass(at.fail.err) == 1 && !act.waits() {
+				thePeer.mu.Unlock()
+				return false
+			}
+			accepted := at.filt != nil
+			inter := false
+			if accepted {
+				if at.eval != nil {
+					inter = at.eval.inter
 				} else {
-					cand := ntp.TimeFromTime64(at.filt.prev.cTx, at.now0.val)
-					if ntp.Time64FromTime(cand) != at.filt.prev.cTx {
-						cand = cand.Add(1)
-					}
-					ctx1 = cand
+					inter = hs.im && at.filt.prev.interleaved
 				}
 			}
-			crx := int64(0)
+			// inputs of the model: the clock reading, the transmit stamp, the reference, the datagrams
+			ctx1 := at.now0.real
+			crxT := at.end
 			if at.hasRecv {
-				crx = ns(at.recvAt)
+				crxT = at.recvAt
+			}
+			if accepted {
+				if !inter {
+					ctx1, crxT = at.filt.t0, at.filt.t3
+				} else {
+					ctx1 = timeOf64(at.filt.prev.cTx, at.now0.val)
+					switch {
+					case k == lastOK && err == nil:
+						crxT = ts
+					case at.hasRecv:
+					default:
+						crxT = timeOf64(at.filt.prev.cRx, at.now0.val)
+					}
+				}
+			}
+			ref := int64(cs.srv + 1)
+			if hs.nts {
+				ref = int64(al.keSrv + 1)
 			}
 			var ds []string
 			for _, d := range al.dgrams {
 				if d.junk {
 					ds = append(ds, lib.L("0"))
 				} else {
-					dcrx := crx
+					dcrx := ns(crxT)
 					if hs.scion && hs.tsopt != 0 {
 						// the receive time is an input here: the timestamp option of this datagram
 						dcrx = ns(d.sendReal)
@@ -629,14 +786,28 @@ func runHistory(w *lib.Writer, hs *histScript) bool {
 						t64s(d.pkt.OriginTime), t64s(d.pkt.ReceiveTime), t64s(d.pkt.TransmitTime), lib.I(dcrx)))
 				}
 			}
-			attIn = append(attIn, lib.L(lib.I(ns(at.now0.val)), lib.I(ns(ctx1)), lib.L(ds...)))
+			attIn = append(attIn, lib.L(lib.I(ns(at.now0.val)), lib.I(ns(ctx1)), lib.I(ref), lib.L(ds...)))
 			// observations
 			var resStr string
 			switch {
-			case at.filt != nil && at.eval != nil:
-				resStr = lib.L("1", lib.Bool(at.eval.inter), lib.I(ns(at.filt.t0)), lib.I(ns(at.filt.t1)), lib.I(ns(at.filt.t2)), lib.I(ns(at.filt.t3)),
-					lib.I(int64(at.eval.off)), lib.I(int64(at.eval.rtd)), lib.I(ns(at.eval.at)), prevStr(at.filt.prev))
-				if at.eval.inter {
+			case accepted:
+				f := at.filt
+				offObs, rtdObs := ntp.ClockOffset(f.t0, f.t1, f.t2, f.t3), ntp.RoundTripDelay(f.t0, f.t1, f.t2, f.t3)
+				atObs := crxT
+				if at.eval != nil {
+					offObs, rtdObs = at.eval.off, at.eval.rtd
+					if at.eval.hasAt {
+						atObs = at.eval.at
+					}
+				} else {
+					tags["nolog"] = true
+				}
+				if hs.scion && hs.tsopt != 0 && !at.hasRecv && at.eval == nil {
+					atObs = crxT
+				}
+				resStr = lib.L("1", lib.Bool(inter), lib.I(ns(f.t0)), lib.I(ns(f.t1)), lib.I(ns(f.t2)), lib.I(ns(f.t3)),
+					lib.I(int64(offObs)), lib.I(int64(rtdObs)), lib.I(ns(atObs)), prevStr(f.prev))
+				if inter {
 					tags["inter"] = true
 					if lossSeen {
 						ntHist = true
@@ -646,22 +817,25 @@ func runHistory(w *lib.Writer, hs *histScript) bool {
 				}
 			case at.fail != nil:
 				ec := errClass(at.fail.err)
-				if ec == 9 && hs.scion {
-					ec = 4 // a SCION packet the client could not decode
+				if ec == 9 && (hs.scion || hs.nts) {
+					ec = 4 // a packet the client could not decode or authenticate
 				}
 				resStr = lib.L("0", lib.I(ec))
 				tags[fmt.Sprintf("err%d", ec)] = true
 			default:
 				resStr = lib.L("3")
 			}
-			attOut = append(attOut, lib.L(lib.U(uint64(al.req.LVM)), t64s(al.req.OriginTime), t64s(al.req.ReceiveTime), t64s(al.req.TransmitTime), resStr))
+			attOut = append(attOut, lib.L(lib.I(int64(al.srv+1)), lib.U(uint64(al.req.LVM)), t64s(al.req.OriginTime), t64s(al.req.ReceiveTime), t64s(al.req.TransmitTime), resStr))
 			if al.req.ReceiveTime != (ntp.Time64{}) {
 				tags["ireq"] = true
+			}
+			if hs.nts && al.keSrv != 0 {
+				tags["ke-other-server"] = true
 			}
 		}
 		thePeer.mu.Unlock()
 		allAtt = append(allAtt, atts...)
-		callsIn = append(callsIn, lib.L(lib.Bool(cs.reset), lib.I(int64(cs.srv+1)), lib.L(attIn...)))
+		callsIn = append(callsIn, lib.L(lib.Bool(cs.reset), lib.L(attIn...)))
 		okCall := err == nil
 		tsn, offn, ec := int64(0), int64(0), int64(0)
 		if okCall {
@@ -670,12 +844,11 @@ func runHistory(w *lib.Writer, hs *histScript) bool {
 			ec = errClass(err)
 			if hs.scion {
 				ec = 0
+			} else if ec == 9 && hs.nts {
+				ec = 4
 			}
 		}
 		callsOut = append(callsOut, lib.L(lib.L(attOut...), lib.Bool(okCall), lib.I(tsn), lib.I(offn), lib.I(ec), prevStr(after)))
-	}
-	if !ok {
-		return false
 	}
 	// the scripted exchanges, for the oracle
 	thePeer.mu.Lock()
@@ -685,7 +858,8 @@ func runHistory(w *lib.Writer, hs *histScript) bool {
 			continue
 		}
 		at := allAtt[hd.attempt]
-		xds = append(xds, lib.L(lib.I(ns(at.now0.real)), lib.I(ns(hd.srx)), lib.I(ns(hd.stx)), lib.I(int64(hd.theta)), lib.I(ns(at.end))))
+		xds = append(xds, lib.L(lib.I(ns(at.now0.real)), lib.I(ns(hd.srx)), lib.I(ns(hd.stx)), lib.I(int64(hd.theta)), lib.I(ns(at.end)),
+			lib.Bool(at.fbTx || at.fbRx)))
 		if hd.theta > 365*24*time.Hour || hd.theta < -365*24*time.Hour {
 			tags["bigtheta"] = true
 		}
@@ -694,30 +868,22 @@ func runHistory(w *lib.Writer, hs *histScript) bool {
 		}
 	}
 	thePeer.mu.Unlock()
-	if racy {
-		return false
-	}
-	if hs.tsopt != 0 {
-		tags[fmt.Sprintf("tsopt%d", hs.tsopt)] = true
-	}
-	if hs.scion {
-		tags["scion"] = true
-	} else {
-		tags["ip"] = true
-	}
-	if hs.im {
-		tags["im"] = true
-	} else {
-		tags["noim"] = true
-	}
-	if ntHist {
-		tags["nt"] = true
+	stat.attempts += hAttempts
+	stat.fbTx += hFbTx
+	stat.fbRx += hFbRx
+	stat.portPairs += hPairs
+	stat.samePorts += hSame
+	for t, on := range map[string]bool{"scion": hs.scion, "ip": !hs.scion, "ipv6": hs.v6, "nts": hs.nts, "hbhopt": hs.hbh,
+		"im": hs.im, "noim": !hs.im, "nt": ntHist, fmt.Sprintf("tsopt%d", hs.tsopt): hs.tsopt != 0} {
+		if on {
+			tags[t] = true
+		}
 	}
 	var tl []string
 	for t := range tags {
 		tl = append(tl, t)
 	}
-	args := lib.V(lib.Bool(hs.scion), lib.Bool(hs.im), lib.L(callsIn...), lib.L(xds...), lib.Bool(oracleOn), lib.U(hs.seed))
+	args := lib.V(lib.Bool(hs.scion), lib.Bool(hs.im), lib.L(callsIn...), lib.L(xds...), "1", lib.U(hs.seed))
 	w.Case("c03.hist", strings.Join(sortStrings(tl), ","), args, lib.V(callsOut...))
 	return true
 }
@@ -731,69 +897,153 @@ func sortStrings(s []string) []string {
 	return s
 }
 
-// c03.fallback: one basic exchange of a client that cannot read kernel
-// timestamps (hardware timestamping requested on the loopback interface, which
-// has none): udp.ReadTXTimestamp gives up after its 1 ms poll and the client
-// takes cTxTime1 = timebase.Now() - after the poll, i.e. about 1 ms after the
-// request left.  Same peer, same oracle as c03.hist.
-func runFallback(w *lib.Writer, scn bool, theta time.Duration) {
-	lim := time.Duration(maxThetaSecs) * time.Second
-	if theta > lim || theta < -lim {
-		theta = 2 * time.Second
-	}
-	hs := &histScript{scion: scn, calls: []callScript{{acts: []action{{kind: aNormal, theta: [2]time.Duration{theta, theta}}}}}}
-	c := &cli{zone: "lo"}
-	if scn {
-		c.sc = &client.SCIONClient{Log: log1, Filter: recFilter{}}
-	} else {
-		c.ip = &client.IPClient{Log: log1, Filter: recFilter{}}
-	}
+// one basic exchange with the scripted peer; returns what the harness saw of it
+type oneExchange struct {
+	at       attObs
+	hd       handling
+	d        sentDgram
+	off      time.Duration
+	ts       time.Time
+	err      error
+	hasEvent bool
+}
+
+func runOne(c *cli, hs *histScript) (oneExchange, bool) {
+	var x oneExchange
 	rec.snap = func() prevSnap { return snapPrevOf(c.obj()) }
 	thePeer.begin(hs)
 	thePeer.setCall(0)
 	rec.take()
 	sctx := &scriptCtx{wait: func() time.Duration { return longWait }}
-	_, off, err := c.measure(sctx, 0)
+	x.ts, x.off, x.err = c.measure(sctx, 0)
 	evs := rec.take()
-	atts, complete := parseEvents(evs)
-	if err != nil || !complete || len(atts) != 1 || atts[0].filt == nil || !atts[0].hasRecv || !thePeer.waitDone(1, 5*time.Second) {
-		fmt.Printf("NOTE c03.fallback: exchange not completed (err=%v)\n", err)
-		return
+	if !thePeer.waitDone(1, longWait) {
+		return x, false
 	}
-	at := atts[0]
+	for _, e := range evs {
+		if e.kind == evNow {
+			x.at.now0, x.hasEvent = e, true
+			break
+		}
+	}
+	if atts, complete := parseEvents(evs); complete && len(atts) == 1 {
+		x.at = atts[0]
+	}
 	thePeer.mu.Lock()
 	defer thePeer.mu.Unlock()
 	h := thePeer.h
-	if len(h.handlings) != 1 || len(h.attempts[0].dgrams) != 1 {
-		return
+	if x.err != nil || !x.hasEvent || len(h.handlings) != 1 || len(h.attempts) != 1 || len(h.attempts[0].dgrams) != 1 {
+		return x, false
 	}
-	hd, d := h.handlings[0], h.attempts[0].dgrams[0]
+	x.hd, x.d = h.handlings[0], h.attempts[0].dgrams[0]
+	return x, true
+}
+
+func dgramStr(d sentDgram, crx time.Time) string {
+	return lib.L("1", lib.U(uint64(d.pkt.LVM)), lib.U(uint64(d.pkt.Stratum)), t64s(d.pkt.OriginTime), t64s(d.pkt.ReceiveTime), t64s(d.pkt.TransmitTime), lib.I(ns(crx)))
+}
+
+// c03.fallback: one basic exchange of a client that cannot read kernel
+// timestamps (hardware timestamping requested on the loopback interface, which
+// has none): udp.ReadTXTimestamp gives up after its 1 ms poll and the client
+// takes cTxTime1 = timebase.Now() - after the poll, i.e. about 1 ms after the
+// request left.  Same peer, same strict oracle as c03.hist.  On a machine where
+// the kernel still delivers timestamps the case is an ordinary exchange.
+func runFallback(w *lib.Writer, scn bool, theta time.Duration) bool {
+	lim := time.Duration(maxThetaSecs) * time.Second
+	if theta > lim || theta < -lim {
+		theta = 2 * time.Second
+	}
+	hs := &histScript{scion: scn, calls: []callScript{{acts: []action{{kind: aNormal, theta: [2]time.Duration{theta, theta}}}}}}
+	c := newClient(hs, true)
+	c.zone = "lo"
+	x, ok := runOne(c, hs)
+	if !ok || x.at.filt == nil {
+		fmt.Printf("NOTE c03.fallback: exchange not completed (err=%v)\n", x.err)
+		return false
+	}
 	tags := "fallback-forced"
-	if at.fbTx {
+	if x.at.fbTx {
 		tags += ",fbtx"
 	}
-	if at.fbRx {
+	if x.at.fbRx {
 		tags += ",fbrx"
 	}
-	f := at.filt
-	late := ns(f.t0) - ns(at.now0.real)
-	errAbs := int64(off) - int64(theta)
+	f := x.at.filt
+	late := ns(f.t0) - ns(x.at.now0.real)
+	errAbs := int64(x.off) - int64(theta)
 	if errAbs < 0 {
 		errAbs = -errAbs
 	}
-	args := lib.V(lib.Bool(scn), lib.I(ns(at.now0.val)), lib.I(ns(f.t0)),
-		lib.L("1", lib.U(uint64(d.pkt.LVM)), lib.U(uint64(d.pkt.Stratum)), t64s(d.pkt.OriginTime), t64s(d.pkt.ReceiveTime), t64s(d.pkt.TransmitTime), lib.I(ns(at.recvAt))),
-		lib.I(ns(at.now0.real)), lib.I(ns(hd.srx)), lib.I(ns(hd.stx)), lib.I(int64(hd.theta)), lib.I(ns(at.end)))
-	outs := lib.V(lib.I(ns(f.t0)), lib.I(ns(f.t1)), lib.I(ns(f.t2)), lib.I(ns(f.t3)), lib.I(int64(off)), lib.I(late), lib.I(errAbs))
+	args := lib.V(lib.Bool(scn), lib.I(ns(x.at.now0.val)), lib.I(ns(f.t0)), dgramStr(x.d, f.t3),
+		lib.I(ns(x.at.now0.real)), lib.I(ns(x.hd.srx)), lib.I(ns(x.hd.stx)), lib.I(int64(x.hd.theta)), lib.I(ns(x.at.end)))
+	outs := lib.V(lib.I(ns(f.t0)), lib.I(ns(f.t1)), lib.I(ns(f.t2)), lib.I(ns(f.t3)), lib.I(int64(x.off)), lib.I(late), lib.I(errAbs))
 	w.Case("c03.fallback", tags, args, outs)
+	return true
 }
 
-// c03.multi: MeasureClockOffsetSCION with two clients and two paths, one of which
-// leads to a next hop that answers every request with garbage at once, so that
-// this client's failure is reported before the other client's measurement
-// (whose replies the peer delays).  The offset reported for the round must be
-// the one successful measurement.
-func runMulti(w *lib.Writer, theta time.Duration) {
+// c03.nofilter: one basic exchange of a client WITHOUT a measurement filter (the
+// tool and benchmark modes): the offset returned is the client's own `off`; with
+// a histogram, which must then hold the round-trip delay of this exchange.  The
+// four stamps are not observable; the transmit stamp is the one that explains the
+// offset returned, and it has to lie in the bracket of the exchange.
+func runNoFilter(w *lib.Writer, scn bool, k int, theta time.Duration) bool {
+	lim := time.Duration(maxThetaSecs) * time.Second
+	if theta > lim || theta < -lim || (theta < time.Millisecond && theta > -time.Millisecond) {
+		theta = time.Duration(3+k) * time.Second
+	}
+	act := action{kind: aNormal, theta: [2]time.Duration{theta, theta}}
+	if k >= 2 {
+		act.fwd[0] = time.Duration(k) * 300 * time.Microsecond
+	}
+	if k >= 4 {
+		act.back[0] = time.Duration(k) * 500 * time.Microsecond
+	}
+	hs := &histScript{scion: scn, v6: !scn && k == 4, calls: []callScript{{acts: []action{act}}}}
+	c := newClient(hs, false)
+	hist := hdrhistogram.New(1, 3600_000_000, 4)
+	if scn {
+		c.sc.Histogram = hist
+	} else {
+		c.ip.Histogram = hist
+	}
+	x, ok := runOne(c, hs)
+	if !ok {
+		fmt.Printf("NOTE c03.nofilter: exchange not completed (err=%v)\n", x.err)
+		return false
+	}
+	end := realNow()
+	tags := "nofilter,histogram"
+	if scn {
+		tags += ",scion"
+	} else if hs.v6 {
+		tags += ",ipv6"
+	} else {
+		tags += ",ip"
+	}
+	if x.at.fbTx || x.at.fbRx {
+		return false // rare; run again
+	}
+	args := lib.V(lib.Bool(scn), lib.I(ns(x.at.now0.val)), dgramStr(x.d, x.ts),
+		lib.I(ns(x.at.now0.real)), lib.I(ns(x.hd.srx)), lib.I(ns(x.hd.stx)), lib.I(int64(x.hd.theta)), lib.I(ns(end)))
+	outs := lib.V(lib.I(int64(x.off)), lib.I(ns(x.ts)), lib.I(hist.TotalCount()), lib.I(hist.Max()))
+	w.Case("c03.nofilter", tags, args, outs)
+	return true
+}
+
+// c03.multi: three rounds of MeasureClockOffsetSCION with two clients and two
+// paths; in every round exactly one measurement succeeds before the round
+// returns, and that one must be what the round reports:
+//   round 1: the reply on path B is held back; when A's measurement is in, the
+//            round's context ends; B's reply is released afterwards (a straggler
+//            whose late result must not show up anywhere);
+//   round 2: path B leads to a next hop that answers garbage; A is measured;
+//   round 3: as round 2, and A's reply is held until B's failure has been reported
+//            (a failure is collected BEFORE the success).
+// The peer's clock offset differs from round to round, so a result of another
+// round is off by seconds.  No step depends on a race: the peer waits for the
+// events it needs.
+func runMulti(w *lib.Writer, wi int) bool {
 	bad, err := net.ListenUDP("udp", &net.UDPAddr{IP: localAddr.IP})
 	if err != nil {
 		panic(err)
@@ -810,51 +1060,107 @@ func runMulti(w *lib.Writer, theta time.Duration) {
 			bad.WriteToUDPAddrPort([]byte{4, 5, 6, 7}, from)
 		}
 	}()
-	act := action{kind: aNormal, theta: [2]time.Duration{theta, theta}, fwd: [2]time.Duration{15 * time.Millisecond, 0}}
-	hs := &histScript{scion: true, im: true, calls: []callScript{{acts: []action{act, act, act}}}}
 	cs := []*client.SCIONClient{
-		{Log: log1, InterleavedMode: true, Filter: recFilter{}},
-		{Log: log1, InterleavedMode: true, Filter: recFilter{}},
+		{Log: log1, Filter: recFilter{}},
+		{Log: log1, Filter: recFilter{}},
 	}
 	rec.snap = func() prevSnap { return prevSnap{} }
-	thePeer.begin(hs)
-	thePeer.setCall(0)
-	rec.take()
+	countEv := func(pred func(event) bool) int {
+		rec.mu.Lock()
+		defer rec.mu.Unlock()
+		n := 0
+		for _, e := range rec.events {
+			if pred(e) {
+				n++
+			}
+		}
+		return n
+	}
+	isFilter := func(e event) bool { return e.kind == evFilter }
+	isFail := func(e event) bool { return e.kind == evLog && e.logger == 0 && e.level >= slog.LevelInfo }
+	waitFor := func(cond func() bool) bool {
+		for t := time.Now(); time.Since(t) < longWait; time.Sleep(200 * time.Microsecond) {
+			if cond() {
+				return true
+			}
+		}
+		return false
+	}
 	la := udp.UDPAddr{IA: theIA, Host: &net.UDPAddr{IP: append(net.IP(nil), localAddr.IP...)}}
-	ps := []snet.Path{
-		spath.Path{Src: theIA, Dst: theIA, DataplanePath: spath.Empty{}, NextHop: thePeer.addr(0)},
-		spath.Path{Src: theIA, Dst: theIA, DataplanePath: spath.Empty{}, NextHop: bad.LocalAddr().(*net.UDPAddr)},
-	}
-	sctx := &scriptCtx{wait: func() time.Duration { return longWait }}
-	start := realNow()
-	ts, off, merr := client.MeasureClockOffsetSCION(sctx, log0, cs, la, scionRemote(0), ps)
-	end := realNow()
-	evs := rec.take()
-	var last *event
-	nfail := 0
-	for i := range evs {
-		if evs[i].kind == evFilter {
-			last = &evs[i]
+	okAll := true
+	var lines [][2]string
+	for round := 1; round <= 3; round++ {
+		theta := time.Duration(round*3+wi)*time.Second + time.Duration(wi*1234567)
+		release := make(chan struct{})
+		actA := action{kind: aNormal, theta: [2]time.Duration{theta, theta}}
+		actB := action{kind: aNormal, theta: [2]time.Duration{theta, theta}, gate: func() { <-release }}
+		if round == 3 {
+			actA.gate = func() { waitFor(func() bool { return countEv(isFail) >= 1 }) }
 		}
-		if evs[i].kind == evLog && evs[i].logger == 0 && evs[i].level >= slog.LevelInfo {
-			nfail++
+		hs := &histScript{scion: true, calls: []callScript{{acts: []action{actA}}}, multi: map[int]action{0: actA, 1: actB}}
+		thePeer.begin(hs)
+		thePeer.setCall(0)
+		rec.take()
+		hopB := bad.LocalAddr().(*net.UDPAddr)
+		if round == 1 {
+			hopB = thePeer.addr(1)
 		}
+		ps := []snet.Path{
+			spath.Path{Src: theIA, Dst: theIA, DataplanePath: spath.Empty{}, NextHop: thePeer.addr(0)},
+			spath.Path{Src: theIA, Dst: theIA, DataplanePath: spath.Empty{}, NextHop: hopB},
+		}
+		sctx := &scriptCtx{wait: func() time.Duration { return longWait }, done: make(chan struct{})}
+		if round == 1 {
+			go func() {
+				// A's measurement is in: the round's context ends while B is still waiting
+				if waitFor(func() bool { return countEv(isFilter) >= 1 }) {
+					time.Sleep(2 * time.Millisecond)
+				}
+				close(sctx.done)
+			}()
+		}
+		start := realNow()
+		ts, off, merr := client.MeasureClockOffsetSCION(sctx, log0, cs, la, scionRemote(0), ps)
+		end := realNow()
+		rec.mu.Lock()
+		evs := append([]event(nil), rec.events...)
+		rec.mu.Unlock()
+		var last *event
+		for i := range evs {
+			if evs[i].kind == evFilter {
+				last = &evs[i]
+			}
+		}
+		nFilterAtReturn := countEv(isFilter)
+		close(release)
+		if round == 1 {
+			// the straggler finishes now; its result belongs to no round
+			waitFor(func() bool { return countEv(isFilter) > nFilterAtReturn || countEv(isFail) >= 1 })
+			time.Sleep(2 * time.Millisecond)
+		}
+		thePeer.mu.Lock()
+		var xds []string
+		for _, hd := range thePeer.h.handlings {
+			xds = append(xds, lib.L(lib.I(ns(start)), lib.I(ns(hd.srx)), lib.I(ns(hd.stx)), lib.I(int64(hd.theta)), lib.I(ns(end)), "0"))
+		}
+		thePeer.mu.Unlock()
+		if last == nil || nFilterAtReturn != 1 {
+			fmt.Printf("NOTE c03.multi: round %d: %d measurements were in when the round returned (err=%v)\n", round, nFilterAtReturn, merr)
+			okAll = false
+			break
+		}
+		tsn := int64(0)
+		if !ts.IsZero() {
+			tsn = ns(ts)
+		}
+		args := lib.V(lib.I(int64(round)), lib.I(ns(last.t0)), lib.I(ns(last.t1)), lib.I(ns(last.t2)), lib.I(ns(last.t3)), lib.L(xds...))
+		lines = append(lines, [2]string{args, lib.V(lib.Bool(merr == nil), lib.I(int64(off)), lib.I(tsn))})
 	}
-	time.Sleep(5 * time.Millisecond)
-	thePeer.mu.Lock()
-	defer thePeer.mu.Unlock()
-	if last == nil || nfail < 3 {
-		fmt.Printf("NOTE c03.multi: no measurement on the good path or no failure on the other (%d failures)\n", nfail)
-		return
+	if !okAll {
+		return false
 	}
-	var xds []string
-	for _, hd := range thePeer.h.handlings {
-		xds = append(xds, lib.L(lib.I(ns(start)), lib.I(ns(hd.srx)), lib.I(ns(hd.stx)), lib.I(int64(hd.theta)), lib.I(ns(end))))
+	for i, l := range lines {
+		w.Case("c03.multi", fmt.Sprintf("multi,nt,round%d", i+1), l[0], l[1])
 	}
-	okv, tsn := merr == nil, int64(0)
-	if !ts.IsZero() {
-		tsn = ns(ts)
-	}
-	args := lib.V(lib.I(ns(last.t0)), lib.I(ns(last.t1)), lib.I(ns(last.t2)), lib.I(ns(last.t3)), lib.L(xds...))
-	w.Case("c03.multi", "multi,nt", args, lib.V(lib.Bool(okv), lib.I(int64(off)), lib.I(tsn)))
+	return true
 }
